@@ -5,20 +5,28 @@
    the two methods is visible.  `rd` is stream based exactly like the Python:
    read the header, cut the sub-stream with BytearrayStream.read(length)
    (silently shorter at the end of the buffer), walk the items peeking at the
-   next tag, finally `is_oversized` when the class performs that check. *)
+   next tag, finally `is_oversized` when the class performs that check.
+
+   An item may be *dispatched* (`i_by`): its tag and kind are looked up, in a
+   table, under the value of an earlier item of the same structure (attribute
+   value by attribute name, payload by operation, secret by object type,
+   credential value by credential type). *)
 From PK Require Export Base.Bytes Base.Prim.
 From Coq Require Export String.
 Open Scope Z_scope.
 
-Inductive mult := Req | Opt | Many.
+Inductive mult := Req | Opt | Many | Many1.      (* Many1 = loop followed by `if len(xs) == 0: raise` *)
 
 Inductive kind :=
 | KPrim (t : ptype)          (* any primitive but Enumeration *)
 | KEnum (e : string)         (* Enumeration over the named enum of kmip.core.enums *)
 | KStruct (c : string).      (* nested structure class *)
 
+(* dispatch: key = the single primitive value of item number by_ix of the same structure *)
+Record by_spec := { by_ix : nat; by_skip_if_absent : bool; by_table : list (pval * (Z * kind)) }.
+
 (* an item is active under protocol version v (10*major+minor) when i_lo <= v < i_hi *)
-Record item := { i_tag : Z; i_kind : kind; i_lo : Z; i_hi : Z; i_mult : mult }.
+Record item := { i_tag : Z; i_kind : kind; i_lo : Z; i_hi : Z; i_mult : mult; i_by : option by_spec }.
 
 Record cls := { c_name : string; c_rd : list item; c_wr : list item; c_oversize_check : bool }.
 
@@ -41,6 +49,32 @@ Inductive value :=
 | VP (p : pval)
 | VS (fields : list (list value)).
 
+(* ------------------------------------------------------------------ dispatch *)
+
+Definition key_of (pre : list (list value)) (ix : nat) : option pval :=
+  match nth_error pre ix with
+  | Some [VP p] => Some p
+  | _ => None
+  end.
+
+Inductive resolved := RItem (it : item) | RSkip | RFail.
+
+(* `pre` = the fields of the items before this one (already written / already read) *)
+Definition resolve1 (pre : list (list value)) (it : item) : resolved :=
+  match i_by it with
+  | None => RItem it
+  | Some b =>
+      match key_of pre (by_ix b) with
+      | None => if by_skip_if_absent b then RSkip else RFail
+      | Some p =>
+          match find (fun e => pval_eqb (fst e) p) (by_table b) with
+          | Some (_, (tag, k)) =>
+              RItem {| i_tag := tag; i_kind := k; i_lo := i_lo it; i_hi := i_hi it; i_mult := i_mult it; i_by := None |}
+          | None => RFail
+          end
+      end
+  end.
+
 (* ------------------------------------------------------------------ writer *)
 
 Fixpoint opt_concat (l : list (option bytes)) : option bytes :=
@@ -55,12 +89,34 @@ Definition mult_ok (m : mult) (n : nat) : bool :=
   | Req => Nat.eqb n 1
   | Opt => Nat.leb n 1
   | Many => true
+  | Many1 => Nat.leb 1 n
   end.
 
 Definition enc_field (wrf : Z -> kind -> value -> option bytes) (p : item * list value) : option bytes :=
   if mult_ok (i_mult (fst p)) (List.length (snd p))
   then opt_concat (map (wrf (i_tag (fst p)) (i_kind (fst p))) (snd p))
   else None.
+
+Fixpoint wr_items (wrf : Z -> kind -> value -> option bytes) (pre : list (list value))
+         (items : list item) (fields : list (list value)) : option bytes :=
+  match items, fields with
+  | [], [] => Some []
+  | it :: its, f :: fs =>
+      match resolve1 pre it with
+      | RFail => None
+      | RSkip => match f with [] => wr_items wrf (pre ++ [f]) its fs | _ => None end
+      | RItem it' =>
+          match enc_field wrf (it', f) with
+          | None => None
+          | Some b =>
+              match wr_items wrf (pre ++ [f]) its fs with
+              | Some r => Some (b ++ r)
+              | None => None
+              end
+          end
+      end
+  | _, _ => None
+  end.
 
 Section Writer.
 Variable E : env.
@@ -77,9 +133,7 @@ Fixpoint wr (fuel : nat) (tag : Z) (k : kind) (x : value) {struct fuel} : option
           match find_cls E c with
           | None => None
           | Some k =>
-              let items := filter (active v) (c_wr k) in
-              if negb (Nat.eqb (List.length items) (List.length fields)) then None else
-              match opt_concat (map (enc_field (wr f)) (combine items fields)) with
+              match wr_items (wr f) [] (filter (active v) (c_wr k)) fields with
               | None => None
               | Some body => with_hdr tag STRUCT_CODE (zlen body) body
               end
@@ -91,6 +145,19 @@ End Writer.
 
 (* values the round-trip theorem speaks about: byte strings hold bytes, enumeration values are
    members of their enumeration, structures have one field list per active item (recursively) *)
+Fixpoint wf_items (wff : kind -> value -> bool) (pre : list (list value))
+         (items : list item) (fields : list (list value)) : bool :=
+  match items, fields with
+  | [], [] => true
+  | it :: its, f :: fs =>
+      match resolve1 pre it with
+      | RFail => false
+      | RSkip => match f with [] => wf_items wff (pre ++ [f]) its fs | _ => false end
+      | RItem it' => forallb (wff (i_kind it')) f && wf_items wff (pre ++ [f]) its fs
+      end
+  | _, _ => false
+  end.
+
 Section WfValue.
 Variable E : env.
 Variable v : Z.
@@ -104,8 +171,7 @@ Fixpoint wfv (fuel : nat) (k : kind) (x : value) {struct fuel} : bool :=
       | KStruct c, VS fields =>
           match find_cls E c with
           | None => false
-          | Some k => forallb (fun p => forallb (wfv f (i_kind (fst p))) (snd p))
-                              (combine (filter (active v) (c_wr k)) fields)
+          | Some k => wf_items (wfv f) [] (filter (active v) (c_wr k)) fields
           end
       | _, _ => false
       end
@@ -113,10 +179,6 @@ Fixpoint wfv (fuel : nat) (k : kind) (x : value) {struct fuel} : bool :=
 End WfValue.
 
 (* ------------------------------------------------------------------ reader *)
-
-Section Reader.
-Variable E : env.
-Variable v : Z.
 
 (* `while is_tag_next(tag, stream): read one` - lfuel bounds the number of turns *)
 Fixpoint rd_many (rd1 : bytes -> option (value * bytes)) (tag : Z) (lfuel : nat) (bs : bytes)
@@ -148,22 +210,40 @@ Definition rd_field (rd1 : bytes -> option (value * bytes)) (it : item) (bs : by
         match rd1 bs with Some (x, r) => Some ([x], r) | None => None end
       else Some ([], bs)
   | Many => rd_many rd1 (i_tag it) (S (List.length bs)) bs
+  | Many1 =>
+      match rd_many rd1 (i_tag it) (S (List.length bs)) bs with
+      | Some ([], _) => None
+      | r => r
+      end
   end.
 
-Fixpoint rd_items (rdk : Z -> kind -> bytes -> option (value * bytes)) (items : list item) (bs : bytes)
-  : option (list (list value) * bytes) :=
+Fixpoint rd_items (rdk : Z -> kind -> bytes -> option (value * bytes)) (pre : list (list value))
+         (items : list item) (bs : bytes) : option (list (list value) * bytes) :=
   match items with
   | [] => Some ([], bs)
   | it :: rest =>
-      match rd_field (rdk (i_tag it) (i_kind it)) it bs with
-      | None => None
-      | Some (f, r) =>
-          match rd_items rdk rest r with
+      match resolve1 pre it with
+      | RFail => None
+      | RSkip =>
+          match rd_items rdk (pre ++ [[]]) rest bs with
           | None => None
-          | Some (fs, r') => Some (f :: fs, r')
+          | Some (fs, r') => Some ([] :: fs, r')
+          end
+      | RItem it' =>
+          match rd_field (rdk (i_tag it') (i_kind it')) it' bs with
+          | None => None
+          | Some (f, r) =>
+              match rd_items rdk (pre ++ [f]) rest r with
+              | None => None
+              | Some (fs, r') => Some (f :: fs, r')
+              end
           end
       end
   end.
+
+Section Reader.
+Variable E : env.
+Variable v : Z.
 
 Fixpoint rd (fuel : nat) (tag : Z) (k : kind) (bs : bytes) {struct fuel} : option (value * bytes) :=
   match fuel with
@@ -191,7 +271,7 @@ Fixpoint rd (fuel : nat) (tag : Z) (k : kind) (bs : bytes) {struct fuel} : optio
                   let n := Z.to_nat (Z.min len (zlen r)) in       (* BytearrayStream.read(length): at most what is there *)
                   let sub := firstn n r in
                   let rest := skipn n r in
-                  match rd_items (rd f) (filter (active v) (c_rd k)) sub with
+                  match rd_items (rd f) [] (filter (active v) (c_rd k)) sub with
                   | None => None
                   | Some (fields, leftover) =>
                       if c_oversize_check k && negb (Nat.eqb (List.length leftover) 0) then None
@@ -206,7 +286,7 @@ End Reader.
 (* ------------------------------------------------------------------ static check on an extracted environment *)
 
 Definition mult_eqb (a b : mult) : bool :=
-  match a, b with Req, Req | Opt, Opt | Many, Many => true | _, _ => false end.
+  match a, b with Req, Req | Opt, Opt | Many, Many | Many1, Many1 => true | _, _ => false end.
 
 Definition kind_eqb (a b : kind) : bool :=
   match a, b with
@@ -216,21 +296,30 @@ Definition kind_eqb (a b : kind) : bool :=
   | _, _ => false
   end.
 
+Fixpoint table_eqb (a b : list (pval * (Z * kind))) : bool :=
+  match a, b with
+  | [], [] => true
+  | (p, (t, k)) :: a', (q, (u, l)) :: b' => pval_eqb p q && (t =? u) && kind_eqb k l && table_eqb a' b'
+  | _, _ => false
+  end.
+
+Definition by_eqb (a b : option by_spec) : bool :=
+  match a, b with
+  | None, None => true
+  | Some x, Some y => Nat.eqb (by_ix x) (by_ix y) && Bool.eqb (by_skip_if_absent x) (by_skip_if_absent y)
+                      && table_eqb (by_table x) (by_table y)
+  | _, _ => false
+  end.
+
 Definition item_eqb (a b : item) : bool :=
   (i_tag a =? i_tag b) && kind_eqb (i_kind a) (i_kind b) && (i_lo a =? i_lo b) && (i_hi a =? i_hi b)
-  && mult_eqb (i_mult a) (i_mult b).
+  && mult_eqb (i_mult a) (i_mult b) && by_eqb (i_by a) (i_by b).
 
 Fixpoint items_eqb (a b : list item) : bool :=
   match a, b with
   | [], [] => true
   | x :: a', y :: b' => item_eqb x y && items_eqb a' b'
   | _, _ => false
-  end.
-
-Fixpoint nodupb (l : list Z) : bool :=
-  match l with
-  | [] => true
-  | x :: r => negb (existsb (Z.eqb x) r) && nodupb r
   end.
 
 Definition VERSIONS : list Z := [10; 11; 12; 13; 14; 20].
@@ -242,13 +331,35 @@ Definition kind_ok (E : env) (k : kind) : bool :=
   | KStruct c => match find_cls E c with Some _ => true | None => false end
   end.
 
-(* reader and writer schemas agree item by item; tags are legal; under every
-   version the active tags of a class are pairwise distinct (peeking is
-   unambiguous); every referenced class / enum exists *)
+(* the tags an item can appear with *)
+Definition tags_of_item (it : item) : list Z :=
+  match i_by it with
+  | None => [i_tag it]
+  | Some b => map (fun e => fst (snd e)) (by_table b)
+  end.
+
+Definition memb (t : Z) (l : list Z) : bool := existsb (Z.eqb t) l.
+
+(* no tag of an item may be a tag of a later item: peeking is then unambiguous whatever the dispatch *)
+Fixpoint tags_disjointb (items : list item) : bool :=
+  match items with
+  | [] => true
+  | it :: r => forallb (fun t => negb (memb t (List.concat (map tags_of_item r)))) (tags_of_item it) && tags_disjointb r
+  end.
+
+Definition item_ok (E : env) (it : item) : bool :=
+  match i_by it with
+  | None => tag_ok (i_tag it) && kind_ok E (i_kind it)
+  | Some b => forallb (fun e => tag_ok (fst (snd e)) && kind_ok E (snd (snd e))) (by_table b)
+  end.
+
+(* reader and writer schemas agree item by item; tags are legal; under every version the tags an
+   active item of a class can take are disjoint from those of the items after it; every referenced
+   class / enum exists *)
 Definition cls_ok (E : env) (k : cls) : bool :=
   items_eqb (c_rd k) (c_wr k)
-  && forallb (fun it => tag_ok (i_tag it) && kind_ok E (i_kind it)) (c_rd k)
-  && forallb (fun v => nodupb (map i_tag (filter (active v) (c_rd k)))) VERSIONS.
+  && forallb (item_ok E) (c_rd k)
+  && forallb (fun v => tags_disjointb (filter (active v) (c_rd k))) VERSIONS.
 
 Definition env_ok (E : env) : bool :=
   forallb (cls_ok E) (e_classes E).
